@@ -129,7 +129,7 @@ def check(req):
         if a["path"] in by_path and by_path[a["path"]] != a["url"]:
             return fail("asset_table_not_injective", "urls %r and %r share the path %s" % (by_path[a["path"]], a["url"], a["path"]))
         by_path[a["path"]] = a["url"]
-    if fmt != FMT_ITMZ:
+    if fmt != FMT_ITMZ and not req.get("cli"):
         for a in assets:
             member = prefix + a["path"]
             delivered = b(a.get("delivered") or "")
@@ -146,7 +146,7 @@ def check(req):
             if n.startswith(prefix) and n != prefix and n not in known:
                 return fail("member_not_in_asset_table", n)
     # every asset path the main document references is in the table
-    if main is not None and fmt in (FMT_EPUB, FMT_TEXTPACK, FMT_ODT):
+    if main is not None and fmt in (FMT_EPUB, FMT_TEXTPACK, FMT_ODT) and not req.get("cli"):
         refd = re.findall(rb'(?:src|href)="((?:assets|Pictures)/[0-9a-f-]{36})"', main)
         table = {a["path"] for a in assets}
         for r in refd:
